@@ -92,7 +92,7 @@ pub fn run_c10(args: &Args) -> i32 {
   acc.count("table_pairs", acc.evaluations);
 
   // ---- random conjunctions + both call sites
-  let ncases = args.scale(60_000, 3_000_000);
+  let ncases = args.scale(60_000, 30_000_000);
   let seed = args.seed;
   let gen = |rng: &mut Rng| -> Q {
     Q {
